@@ -241,6 +241,16 @@ func (b *Body) globalNeverNilError(g *ssa.Global) bool {
 	if st.Parent().Name() != "init" {
 		return false
 	}
+	// a value of an error type of the library's own: the address of a composite literal
+	if mi, isMI := st.Val.(*ssa.MakeInterface); isMI {
+		if _, isAlloc := mi.X.(*ssa.Alloc); isAlloc {
+			return true
+		}
+		if _, isPtr := mi.X.Type().Underlying().(*types.Pointer); !isPtr {
+			return true // a non-pointer dynamic value makes a non-nil interface
+		}
+		return false
+	}
 	c, ok := st.Val.(*ssa.Call)
 	if !ok {
 		return false
